@@ -95,6 +95,7 @@ class ConsumerWorld(ClientWorld):
         self.start_epoch_step = 0
         self.app_log = []
         self.issue_log = []
+        self.out_of_range_answers = 0
         self.commit_failures = 0
         self.crashes = 0
         self.all_delivered = set()
@@ -613,6 +614,7 @@ class ConsumerWorld(ClientWorld):
                         self.acked_commits.add(off)
 
     def on_out_of_range(self):
+        self.out_of_range_answers += 1
         policy = self.cfg.get("consumer", {}).get("auto_offset_reset")
         log = self.cluster.logs[self.tp]
         if policy is None:
@@ -819,6 +821,8 @@ class ConsumerWorld(ClientWorld):
     def finish(self, horizon):
         if self.PROP == "C02":
             self.finish_c02(horizon)
+        if self.PROP == "C14":
+            self.finish_c14(horizon)
         if self.PROP == "C13":
             for rec in self.shutdown_results:
                 aborted = any(r[1] == "returned" and r[0] >= rec[3] for r in self.stop_returns)
@@ -846,6 +850,51 @@ class ConsumerWorld(ClientWorld):
             if rec[1] and isinstance(rec[2], Failure) and not self.cfg.get("expect_start_failure"):
                 self.viol("delivery", "start-deferred-failed:%s" % rec[2].type.__name__,
                           "start() Deferred failed with %r in a scenario without unrecoverable errors" % (rec[2].value,))
+
+    def finish_c14(self, horizon):
+        from twisted.python.failure import Failure
+        c = self.cfg.get("consumer", {})
+        limit = c.get("request_retry_max_attempts", 0)
+        policy = c.get("auto_offset_reset")
+        rec = self.start_results[-1] if self.start_results else None
+        leaves = self.leaves()
+        if rec is not None and rec[1] and isinstance(rec[2], Failure):
+            f = rec[2]
+            name = f.type.__name__
+            if name == "OffsetOutOfRangeError":
+                # (an out-of-range answer counts as a failed attempt, so the attempt limit may end the run first)
+                if policy is not None and not limit:
+                    self.viol("offset-reset", "out-of-range-fails-start-despite-policy",
+                              "start() failed with OffsetOutOfRangeError although auto_offset_reset=%r" % policy)
+            elif name == "ConsumerFetchSizeTooSmall":
+                need = max(len(e.data) for e in self.cluster.logs[self.tp].entries)
+                mx = c.get("max_buffer_size")
+                if mx is None or mx >= need:
+                    self.viol("buffer", "fetch-size-failure-although-maximum-suffices",
+                              "start() failed with ConsumerFetchSizeTooSmall; largest entry needs %d bytes, "
+                              "max_buffer_size=%r, fetch sizes used %r" % (
+                                  need, mx, sorted(set(x[3] for x in self.fetch_reqs))))
+            else:
+                if not limit:
+                    self.viol("retry-limit", "start-fails-on-retriable-error-without-limit:%s" % name,
+                              "start() failed with %r although request_retry_max_attempts=0 (retry forever)" % (
+                                  f.value,))
+                elif self.consec_failures < 1:
+                    self.viol("retry-limit", "start-fails-without-failed-attempt:%s" % name,
+                              "start() failed with %r without a preceding failed attempt" % (f.value,))
+        else:
+            # still running: with faults ceased everything must have been delivered (no message skipped)
+            if self.expected_next is None:
+                self.viol("retry", "position-never-resolved%s" % ("-horizon" if horizon else ""),
+                          "the consumer never issued a fetch although faults ceased (tail %r)" % (self.trace[-8:],))
+            elif self.expected_next < len(leaves):
+                self.viol("retry", "messages-never-delivered%s" % ("-horizon" if horizon else ""),
+                          "log entries from offset %d on were never delivered although faults ceased "
+                          "(fetch sizes %r, tail %r)" % (leaves[self.expected_next][0],
+                                                         sorted(set(x[3] for x in self.fetch_reqs)), self.trace[-8:]))
+            if policy is None and self.out_of_range_answers and not self.cfg.get("group"):
+                self.viol("offset-reset", "out-of-range-ignored-without-policy",
+                          "an out-of-range answer was given, auto_offset_reset is None, yet start() did not fail")
 
     def outcome(self):
         sr = tuple((r[0], r[1], type(getattr(r[2], "value", r[2])).__name__) for r in self.start_results)
